@@ -49,6 +49,27 @@ fn gen_packages(rng: &mut Rng) -> Vec<Pkg> {
         }
     }
     let n = pkgs.len();
+    // One tree in three holds a second, independent project (sometimes a second checkout with the
+    // same package name) with its OWN copies of registry dependencies of the same names: package
+    // identity must not leak from one project to the other.
+    let mut second: Vec<usize> = Vec::new();
+    if rng.chance(1, 3) {
+        let name = if rng.chance(1, 2) { "app" } else { "other" };
+        pkgs.push(Pkg { name: name.into(), dir: "other".into(), deps: vec![], external: false, modules: vec![] });
+        let oi = pkgs.len() - 1;
+        second.push(oi);
+        for k in 0..rng.range(0, 2) {
+            let name = format!("dep{k}");
+            pkgs.push(Pkg { name: name.clone(), dir: format!("other/build/packages/{name}"), deps: vec![], external: true, modules: vec![] });
+            let j = pkgs.len() - 1;
+            second.push(j);
+            pkgs[oi].deps.push(j);
+        }
+        if second.len() == 3 && rng.chance(1, 2) {
+            let (a, b) = (second[1], second[2]);
+            pkgs[a].deps.push(b);
+        }
+    }
     // dependency edges: app -> some; registry deps may depend on later registry deps
     for j in 1..n {
         if rng.chance(3, 4) {
@@ -95,10 +116,9 @@ fn gen_packages(rng: &mut Rng) -> Vec<Pkg> {
                 continue;
             }
             let dir = if !p.external && rng.chance(1, 4) { "test" } else { "src" };
-            let fname = format!("f_{}_{}", p.name, name.replace('/', "_"));
+            let fname = format!("f_{}{}_{}", p.name, pi, name.replace('/', "_"));
             p.modules.push((name.clone(), format!("{dir}/{name}.gleam"), fname));
         }
-        let _ = pi;
     }
     pkgs
 }
@@ -226,9 +246,9 @@ pub fn gen_session(seed: u64, run: u64, _thorough: bool) -> Session {
                 }
             }
         }
-        let own_fn = format!("main_{}", p.name);
+        let own_fn = format!("main_{}{}", p.name, pi);
         let (text, positions) = importer_text(&own_fn, &names);
-        let rel = format!("{}/src/imp_{}.gleam", p.dir, p.name);
+        let rel = format!("{}/src/imp_{}{}.gleam", p.dir, p.name, pi);
         put(&mut tree, &mut late, rel.clone(), text.clone());
         importer_files.push((pi, rel.clone(), text));
         let local_expect3: Vec<_> = local_expect.iter().flat_map(|e| [e.clone(), e.clone(), e.clone()]).collect();
@@ -368,7 +388,7 @@ pub fn gen_session(seed: u64, run: u64, _thorough: bool) -> Session {
             "deps_late": deps_late,
             "packages": n_pkgs,
             "order_kind": order_kind,
-            "shape": pkgs.iter().map(|p| format!("{}{}:{:?}:{}", if p.external { "r" } else if p.dir.starts_with("app/") { "n" } else if p.dir.starts_with("libs/") { "d" } else { "l" }, p.modules.len(), p.deps, p.modules.iter().map(|m| if m.1.starts_with("test") { 't' } else if m.0.contains('/') { 'n' } else { 's' }).collect::<String>())).collect::<Vec<_>>().join(";"),
+            "shape": pkgs.iter().map(|p| format!("{}{}:{:?}:{}", if p.dir.starts_with("other") { "o" } else if p.external { "r" } else if p.dir.starts_with("app/") { "n" } else if p.dir.starts_with("libs/") { "d" } else { "l" }, p.modules.len(), p.deps, p.modules.iter().map(|m| if m.1.starts_with("test") { 't' } else if m.0.contains('/') { 'n' } else { 's' }).collect::<String>())).collect::<Vec<_>>().join(";"),
         }),
     }
 }
@@ -444,7 +464,9 @@ pub fn check(s: &Session, h: &History, stats: &mut Stats) -> Option<Violation> {
         let want: Option<String> = e["target"].as_str().map(|t| format!("file://{}/{t}", s.root));
         let amb: Vec<String> = e["ambiguous"].as_array().map(|a| a.iter().filter_map(|x| x.as_str()).map(|t| format!("file://{}/{t}", s.root)).collect()).unwrap_or_default();
         let importer = e["importer"].as_str().unwrap_or("");
-        let importer_kind = if importer.contains("build/packages") {
+        let importer_kind = if importer.starts_with("other/") {
+            "importer.second_project"
+        } else if importer.contains("build/packages") {
             "importer.registry_dependency"
         } else if importer.starts_with("app/") {
             "importer.root_package"
